@@ -170,7 +170,7 @@ func (r *recorder) Write(b []byte) (int, error) {
 	}
 	r.mu.Lock()
 	r.writes = append(r.writes, append([]byte(nil), b...))
-	if r.fence != "" && len(b) >= 10 && string(b[2:10]) == r.fence {
+	if r.fence != "" && len(b) >= 10 && b[1] == 1 && string(b[2:10]) == r.fence {
 		atomic.StoreInt32(&r.fenced, 1)
 	}
 	r.mu.Unlock()
@@ -310,9 +310,31 @@ type built struct {
 }
 
 // buildMsgs constructs every message and its martian context (before any
-// goroutine starts). drop is set when random context IDs collide.
+// goroutine starts). Through marbl.Modifier the wire ID is the first 8
+// characters of the martian context ID: two different messages of the same
+// type must not share it, or a reader cannot tell their frames apart. Context
+// IDs are random, so a clash (2^-32 per pair) is re-validated once with fresh
+// contexts before it is reported.
 func buildMsgs(msgs []Msg, modifier bool) (bs []*built, removes []func(), drop bool, v kit.Verdict) {
+	var clash string
+	for attempt := 0; attempt < 2; attempt++ {
+		bs, removes, clash, v = buildOnce(msgs, modifier)
+		if clash == "" || v != nil {
+			return bs, removes, false, v
+		}
+		if attempt == 0 {
+			for _, rm := range removes {
+				rm()
+			}
+			kit.Inconclusive("logging")
+		}
+	}
+	return nil, removes, false, kit.Failf("C19/ids/through-modifier/distinct-messages-share-the-8-byte-wire-id", "%s (seen again with fresh contexts): every frame carries only ID[:8], so these messages cannot be told apart in the stream", clash)
+}
+
+func buildOnce(msgs []Msg, modifier bool) (bs []*built, removes []func(), clash string, v kit.Verdict) {
 	bs = make([]*built, len(msgs))
+	full := make([]string, len(msgs))
 	for i, m := range msgs {
 		b := &built{body: newScripted(m), twin: newScripted(m), exp: &expectMsg{mt: 1}}
 		var ctx *martian.Context
@@ -327,15 +349,16 @@ func buildMsgs(msgs []Msg, modifier bool) (bs []*built, removes []func(), drop b
 				b.req, err = buildRequest(m)
 			}
 			if err != nil {
-				return nil, removes, false, kit.Failf("C19/harness/bad-case", "message %d: %v", i, err)
+				return nil, removes, "", kit.Failf("C19/harness/bad-case", "message %d: %v", i, err)
 			}
 			var rm func()
 			ctx, rm, err = martian.TestContext(b.req, nil, nil)
 			if err != nil {
-				return nil, removes, false, kit.Failf("C19/harness/test-context", "martian.TestContext: %v", err)
+				return nil, removes, "", kit.Failf("C19/harness/test-context", "martian.TestContext: %v", err)
 			}
 			removes = append(removes, rm)
 		}
+		full[i] = ctx.ID()
 		if m.API {
 			ctx.APIRequest()
 		}
@@ -368,19 +391,16 @@ func buildMsgs(msgs []Msg, modifier bool) (bs []*built, removes []func(), drop b
 		bs[i] = b
 	}
 	if modifier {
-		// context IDs are random: two messages that are not a pair must differ in
-		// the 8 bytes that reach the wire, otherwise the case says nothing
 		seen := map[string]int{}
 		for i, b := range bs {
 			key := fmt.Sprintf("%d/%s", b.exp.mt, b.exp.id8)
-			if _, dup := seen[key]; dup {
-				kit.Note("logging", "a case was dropped because two random context IDs shared their first 8 characters")
-				return nil, removes, true, nil
+			if j, dup := seen[key]; dup {
+				return bs, removes, fmt.Sprintf("messages %d and %d (both %ss, martian context IDs %q and %q) reach the wire with the same ID %q", j, i, mtName(msgs[i].Resp), full[j], full[i], b.exp.id8), nil
 			}
 			seen[key] = i
 		}
 	}
-	return bs, removes, false, nil
+	return bs, removes, "", nil
 }
 
 // failSink collects failures from several goroutines.
@@ -633,15 +653,33 @@ func runLog(c LogCase) kit.Verdict {
 	// fence: the stream writes frames in the order it accepted them, so once
 	// a frame of a message logged after all the others has reached the writer,
 	// every frame of the others has.
-	fence, _ := http.NewRequest("GET", "http://fence.invalid/", nil)
-	fctx, frm, err := martian.TestContext(fence, nil, nil)
-	if err != nil {
-		return kit.Failf("C19/harness/test-context", "martian.TestContext: %v", err)
-	}
-	removes = append(removes, frm)
+	var fence *http.Request
 	fenceID := "\x00fence\x00\x00"
-	if c.Modifier {
+	for attempt := 0; ; attempt++ {
+		fence, _ = http.NewRequest("GET", "http://fence.invalid/", nil)
+		fctx, frm, err := martian.TestContext(fence, nil, nil)
+		if err != nil {
+			return kit.Failf("C19/harness/test-context", "martian.TestContext: %v", err)
+		}
+		removes = append(removes, frm)
+		if !c.Modifier {
+			break
+		}
 		fenceID = fctx.ID()[:8]
+		clash := -1
+		for i, b := range bs {
+			if b.exp.mt == 1 && b.exp.id8 == fenceID {
+				clash = i
+			}
+		}
+		if clash < 0 {
+			break
+		}
+		// the fence is one more message logged through the real path
+		if attempt >= 1 {
+			return append(fails, kit.Failf("C19/ids/through-modifier/distinct-messages-share-the-8-byte-wire-id", "a request logged after message %d (martian context ID %q) reaches the wire with the same ID %q as that message (seen again with a fresh context)", clash, fctx.ID(), fenceID)...)
+		}
+		kit.Inconclusive("logging")
 	}
 	rec.mu.Lock()
 	rec.fence = fenceID
@@ -671,13 +709,6 @@ func runLog(c LogCase) kit.Verdict {
 	}
 	if len(fails) > 0 {
 		return fails
-	}
-	if c.Modifier {
-		for _, b := range bs {
-			if b.exp.id8 == fenceID {
-				return nil // random ID collision with the fence
-			}
-		}
 	}
 
 	// ---- the recording
